@@ -8,11 +8,14 @@
   (`corr`), and of `dot`, `norm`, `<`.  Exact arithmetic = a module `M` over any commutative ring `R` with a linear operator `A`
   (in particular `Matrix (Fin n) (Fin n) R` acting on `Fin n → R`), resp. any linearly ordered field for ordering.
 
-  Clauses of the property that are FALSE of the unchanged code (recorded in known_findings/C15.json, each with a witness
+  Clauses of the property that are FALSE of the code as it is (recorded in known_findings/C15.json, each with a witness
   below and a replay in the harness corpus):
-    * "never NaN": the DPR correction divides by `θ - a_ii` unguarded                               -> `c15_correction_defined` + witness (F11)
     * "unit norm, mutually orthonormal" for a user-supplied non-orthonormal space                   -> `c15_unit_orth` needs the hypothesis; counter-model (F16)
-    * "compute() returns nev": only `min nev (#pairs)`; the space can hold fewer than `nev` pairs   -> `c15_successful` + `c15_sizes_lt_nev_witness` (F18)
+  Repaired in /repo (known_findings/C15.json, status fixed) and now theorems about the repaired code:
+    * "never NaN": the DPR correction used to divide by `θ - a_ii` unguarded (F11); it now applies the pseudo-inverse of the
+      diagonal preconditioner (component 0 where `θ = a_ii`)                                        -> `c15_correction_defined`
+    * "compute() returns nev": the sizes could be reset below `nev` and `nev` entries of shorter arrays were read (F18);
+      `initialize()` now keeps `initial ≥ nev`, `check_convergence` requires `nev` pairs            -> `c15_sizes`, `c15_successful`
   Not provable (rounding / convergence; oracle only): the strict inequality on the computed residual norm transfers to the
   true residual only up to rounding of the cached products (slack stated in harness/c15.cpp); orthonormality of the basis
   produced by the real `HouseholderQR` passes is a specification hypothesis here (`OrthSpec` in `c15_unit_orth_spec`); the real
@@ -25,6 +28,7 @@ import SpectraVerif.Proofs.C15Gram
 import SpectraVerif.Proofs.C15Order
 import SpectraVerif.Proofs.C15Orth
 import SpectraVerif.Proofs.C15Sizes
+import SpectraVerif.Proofs.C15Dpr
 import SpectraVerif.Gen.Guard
 import Mathlib.Data.Matrix.Mul
 import Mathlib.Tactic.NormNum
@@ -107,19 +111,22 @@ section anytype
 variable {σ ν : Type} (K : Kern σ ν)
 
 /-- **c15_successful.**  For ALL kernels and arbitrary scalar/vector types: if `compute_with_guess` (called with `info() ≠
-    Successful`, e.g. on a fresh object) ends with `info() == Successful`, then the stored flags are the convergence tests of
-    the stored pairs, the test `‖residue‖ < tol` passed for each of the first `nev` pairs, and the return value is
-    `min nev (#pairs)` — hence `nev` whenever the search space holds at least `nev` pairs. -/
+    Successful`, e.g. on a fresh object) ends with `info() == Successful`, then the search space holds at least `nev` Ritz
+    pairs, the test `‖residue‖ < tol` passed for each of the first `nev` of them, and `compute` returns `nev`. -/
 theorem c15_successful (c : Cfg) (corr : List (Pair σ ν) → List ν) (guess : List ν) (sel : Int) (maxit : Nat) (tol : σ)
     (s : St σ ν) (h0 : s.info ≠ .successful)
     (h : (computeWithGuess K c corr guess sel maxit tol s).1.info = .successful) :
     let r := computeWithGuess K c corr guess sel maxit tol s
     (∀ p ∈ r.1.pairs.take c.nev, K.lt (K.norm p.residue) tol = true) ∧
-    r.2 = min c.nev r.1.pairs.length ∧ (c.nev ≤ r.1.pairs.length → r.2 = c.nev) := by
+    r.2 = c.nev ∧ c.nev ≤ r.1.pairs.length ∧ (eigenvalues c r.1).length = c.nev ∧ (eigenvectors c r.1).length = c.nev := by
   have hp := loop_successful K c corr sel tol maxit maxit { initializeSearchSpace guess s with niter := 0, sizes := [] }
     (by simpa [initializeSearchSpace] using h0) h
   have := succPost_consequences K c tol _ hp
-  exact ⟨this.1, this.2, fun hle => this.2.trans (Nat.min_eq_left hle)⟩
+  refine ⟨this.1, this.2.1, this.2.2, ?_, ?_⟩
+  · simp only [eigenvalues, List.length_map, List.length_take]
+    exact Nat.min_eq_left this.2.2
+  · simp only [eigenvectors, List.length_map, List.length_take]
+    exact Nat.min_eq_left this.2.2
 
 /-- **c15_iterations.**  For ALL kernels, `maxit ≥ 1`: the loop stops with `num_iterations() < maxit`, performs exactly
     `num_iterations() + 1` Rayleigh–Ritz steps, every step (after the restart bookkeeping) sees a search space of at most
@@ -159,40 +166,44 @@ theorem c15_exec_orth_keeps_left {α : Type} [Add α] [Sub α] [Mul α] [Div α]
     (cols : List (Lin.Vec α)) (skip : Nat) : (Exec.orthTwice cols skip).take skip = cols.take skip :=
   orthTwice_keepsLeft cols skip
 
-/-- sizes after the translated constructor initialisers and `initialize()`: `max ≤ n` and `initial + correction ≤ n`
+/-- sizes after the translated constructor initialisers and `initialize()`: `max ≤ n`, `initial + correction ≤ n` and
+    (repair of F18) `nev ≤ initial`, for every requested size
     (part of **c15_iterations**: the guards the loop relies on, proved about the regenerated `Gen.JD`) -/
 theorem c15_sizes (nev ni nm n : Int) (hn : 0 ≤ n) :
     let c := Gen.JD.jd_ctor_sizes nev ni nm n
-    let i := Gen.JD.jd_initialize c.1 c.2.1 c.2.2 n
-    i.1 ≤ n ∧ i.2.1 + i.2.2 ≤ n := by
+    let i := Gen.JD.jd_initialize c.1 c.2.1 c.2.2 nev n
+    i.1 ≤ n ∧ i.2.1 + i.2.2 ≤ n ∧ nev ≤ i.2.1 := by
   simp only [Gen.JD.jd_ctor_sizes, Gen.JD.jd_initialize]
   have e : Int.tdiv n 3 = n / 3 := Int.tdiv_eq_ediv_of_nonneg hn
-  constructor
+  refine ⟨?_, ?_, ?_⟩
   · split <;> simp_all <;> omega
-  · split <;> split <;> simp_all <;> omega
+  · split <;> split <;> split <;> simp_all <;> omega
+  · split <;> split <;> split <;> simp_all
 
-/-- for the arguments `check_argument` admits (`nev ≥ 1`) and a non-negative requested initial size, no size is negative -/
-theorem c15_sizes_nonneg (nev ni nm n : Int) (hn : 0 ≤ n) (hnev : 1 ≤ nev) (hni : 0 ≤ ni) :
+/-- for the arguments `check_argument` admits (`1 ≤ nev ≤ n - 1`), no size is negative -/
+theorem c15_sizes_nonneg (nev ni nm n : Int) (hnev : 1 ≤ nev) (hnev2 : nev ≤ n - 1) :
     let c := Gen.JD.jd_ctor_sizes nev ni nm n
-    let i := Gen.JD.jd_initialize c.1 c.2.1 c.2.2 n
+    let i := Gen.JD.jd_initialize c.1 c.2.1 c.2.2 nev n
     0 ≤ i.2.1 ∧ 0 ≤ i.2.2 := by
   simp only [Gen.JD.jd_ctor_sizes, Gen.JD.jd_initialize]
+  have hn : 0 ≤ n := by omega
   have e : Int.tdiv n 3 = n / 3 := Int.tdiv_eq_ediv_of_nonneg hn
-  constructor <;> split <;> split <;> simp_all <;> omega
+  constructor <;> split <;> split <;> split <;> simp_all <;> omega
 
 /-- the same on the configuration record the model uses -/
-theorem c15_sizes_cfg (nev ni nm n : Int) (hn : 0 ≤ n) (hnev : 1 ≤ nev) (hni : 0 ≤ ni) :
-    ((cfgOf nev ni nm n).maxSize : Int) ≤ n ∧ ((cfgOf nev ni nm n).initSize : Int) + (cfgOf nev ni nm n).corrSize ≤ n := by
-  have h1 := c15_sizes nev ni nm n hn
-  have h2 := c15_sizes_nonneg nev ni nm n hn hnev hni
+theorem c15_sizes_cfg (nev ni nm n : Int) (hnev : 1 ≤ nev) (hnev2 : nev ≤ n - 1) :
+    ((cfgOf nev ni nm n).maxSize : Int) ≤ n ∧ ((cfgOf nev ni nm n).initSize : Int) + (cfgOf nev ni nm n).corrSize ≤ n ∧
+    (cfgOf nev ni nm n).nev ≤ (cfgOf nev ni nm n).initSize := by
+  have h1 := c15_sizes nev ni nm n (by omega)
+  have h2 := c15_sizes_nonneg nev ni nm n hnev hnev2
   simp only at h1 h2
   simp only [cfgOf]
   omega
 
-/-- what the guards do NOT give (finding F18): the library's own defaults for `n = 10`, `nev = 6` pass `check_argument`
-    and leave an initial space of 3 < nev columns, so a first-iteration `Successful` has tested only 3 pairs -/
-theorem c15_sizes_lt_nev_witness :
-    Gen.Guard.jd_check_argument 6 10 = Res.ok () ∧ cfgOf 6 12 60 10 = { nev := 6, maxSize := 10, initSize := 3, corrSize := 3 } := by
+/-- the repaired behaviour on the former witness of F18: the library's own defaults for `n = 10`, `nev = 6` pass
+    `check_argument` and now give an initial space of `6 = nev` columns and a correction of 3 (they used to give 3 and 3) -/
+example :
+    Gen.Guard.jd_check_argument 6 10 = Res.ok () ∧ cfgOf 6 12 60 10 = { nev := 6, maxSize := 10, initSize := 6, corrSize := 3 } := by
   decide
 
 /-! ### c15_order -/
@@ -320,14 +331,44 @@ theorem c15_default_space_orthonormal {R : Type} [CommRing R] {n : Nat} (rows : 
 section dpr
 variable {F : Type} [Field F]
 
-/-- **c15_correction_defined.**  Coordinate form of `calculate_correction_vector` (`t_i = r_i / (θ - a_ii)`): the quotient
-    solves the DPR equation `(θ - a_ii) t_i = r_i` for every residue iff `θ ≠ a_ii` for all `i`.  Nothing in the solver
-    establishes the right-hand side; when it fails with `r_i = 0` the C++ evaluates `0/0` (witness below, finding F11). -/
-theorem c15_correction_defined (n : Nat) (d : Nat → F) (θ : F) :
+/-- the raw DPR quotient `r_i / (θ - a_ii)` solves the DPR equation `(θ - a_ii) t_i = r_i` for every residue iff `θ ≠ a_ii`
+    for all `i` — nothing in the solver establishes the right-hand side, which is why the quotient must be guarded -/
+theorem c15_dpr_quotient_defined_iff (n : Nat) (d : Nat → F) (θ : F) :
     (∀ r : Nat → F, ∀ i < n, (θ - d i) * (r i / (θ - d i)) = r i) ↔ ∀ i < n, θ ≠ d i :=
   dpr_solves_iff n d θ
 
 end dpr
+
+section dprfix
+variable {F : Type} [Field F] [LinearOrder F] [IsStrictOrderedRing F] (Fn : FieldFns F)
+open Lin
+
+/-- **c15_correction_defined** (repaired code).  `calculate_correction_vector` is `(tmp == 0).select(0, residue / tmp)` with
+    `tmp = θ - diagonal`.  For EVERY `θ`, diagonal and residue:
+    (1) the result does not depend on what a division by zero evaluates to — computed with any division function that agrees
+        with the field's on non-zero denominators (IEEE: NaN, ±inf for `x/0`) it is the same vector, so no entry is ever the
+        outcome of `0/0` or `x/0`: the correction is finite whenever its inputs are;
+    (2) entry `i` is the DPR quotient `r_i / (θ - a_ii)`, i.e. solves `(θ - a_ii) t_i = r_i`, wherever `θ ≠ a_ii`;
+    (3) entry `i` is `0` where `θ = a_ii` (pseudo-inverse of the singular diagonal preconditioner). -/
+theorem c15_correction_defined (diag : Vec F) (θ : F) (r : Vec F) :
+    (∀ dv : F → F → F, (∀ a b : F, b ≠ 0 → dv a b = a / b) →
+      @Exec.dprColumn F _ ⟨dv⟩ (scOfField Fn) diag θ r = @Exec.dprColumn F _ _ (scOfField Fn) diag θ r) ∧
+    (∀ i < diag.size, θ ≠ @vget F (scOfField Fn) diag i →
+      (θ - @vget F (scOfField Fn) diag i) * @vget F (scOfField Fn) (@Exec.dprColumn F _ _ (scOfField Fn) diag θ r) i
+        = @vget F (scOfField Fn) r i) ∧
+    (∀ i < diag.size, θ = @vget F (scOfField Fn) diag i →
+      @vget F (scOfField Fn) (@Exec.dprColumn F _ _ (scOfField Fn) diag θ r) i = 0) := by
+  refine ⟨fun dv hdv => dprColumn_indep Fn dv hdv diag θ r, ?_, ?_⟩
+  · intro i hi hne
+    rw [dprColumn_entry Fn diag θ r i hi]
+    have : θ - @vget F (scOfField Fn) diag i ≠ 0 := sub_ne_zero.mpr hne
+    simp only [this, if_false]
+    field_simp
+  · intro i hi heq
+    rw [dprColumn_entry Fn diag θ r i hi]
+    simp [heq]
+
+end dprfix
 
 /-! ### examples: hypotheses are satisfiable; witnesses for the clauses that fail -/
 
@@ -387,10 +428,10 @@ example :
     eigenvalues cfg1 (computeWithGuess (K1 3) cfg1 (fun _ => [1]) [1] 7 5 1 construct).1 = [3] := by
   decide
 
-/-- model-level `0/0` (finding F11): the decoupled coordinate of `diag(2, …)`, i.e. the 1-dimensional run with `a = 2` from
-    the unit vector `[1]`: the Ritz value equals the diagonal entry (`θ - a_00 = 0`) and the residue is exactly `0`, so
-    the DPR quotient `residue / (θ - a_00)` is `0/0`; with `tol = 0` the pair does not count as converged (`0 < 0` is
-    false) and the loop goes on to form that quotient -/
+/-- the situation that used to produce `0/0` (F11, repaired): the decoupled coordinate of `diag(2, …)`, i.e. the 1-dimensional
+    run with `a = 2` from the unit vector `[1]`: the Ritz value equals the diagonal entry (`θ - a_00 = 0`) and the residue
+    is exactly `0`; with `tol = 0` the pair does not count as converged (`0 < 0` is false) and the loop goes on to form the
+    correction, whose entry in that row is now `0` by `c15_correction_defined` (3) instead of the quotient `0/0` -/
 example :
     (computeWithGuess (K1 2) cfg1 (fun _ => [1]) [1] 7 1 0 construct).1.info = .notConverging ∧
     (computeWithGuess (K1 2) cfg1 (fun _ => [1]) [1] 7 1 0 construct).1.pairs.map (fun p => (p.value - 2, p.residue)) = [(0, 0)] := by
